@@ -160,6 +160,9 @@ func (w *World) remFlags(n *Node, b *Block) []bool {
 	r := SubRng(b.Seed^uint64(n.idx+1)*0x9e3779b1, "rem")
 	out := make([]bool, len(b.Adds))
 	mode := r.Weighted(2, 2, 2, 3, 2)
+	if len(out) > 4096 && mode != 0 && mode != 2 {
+		mode = 5 // a block of tens of thousands of additions: remember a sparse subset
+	}
 	for i := range out {
 		switch mode {
 		case 0: // none
@@ -171,6 +174,8 @@ func (w *World) remFlags(n *Node, b *Block) []bool {
 			out[i] = r.Pct(50)
 		case 4:
 			out[i] = r.Pct(20)
+		case 5:
+			out[i] = r.Intn(1000) < 4 || i == len(out)-1 || i == 0
 		}
 	}
 	return out
@@ -576,7 +581,10 @@ func (w *World) applyStumpy(n *Node, b *Block) {
 		}
 	}
 	proof = n.upProof(proof, b.Pre.N)
-	w.forgedStump(n, b, proof)
+	// (the forged variant is derived from the canonical proof, in which every
+	// hash is needed: a re-encoded proof may carry unused trailing hashes, and
+	// replacing one of those would not be a corruption)
+	w.forgedStump(n, b, n.upProof(b.Proof, b.Pre.N))
 	if w.stop || n.tainted {
 		return
 	}
